@@ -116,8 +116,10 @@ def run_frame(mods, c, partner, seed, kind, scenario, calls):
   out = []
   try:
     model = mods['iroas'].TBRiROAS(use_cooldown=True)
-    base.refit_prelude(model, df, iroas=True)
-    model.fit(df)
+    variant = base.semantic_variant(df)
+    base.refit_prelude(model, df, iroas=True, variant=variant)
+    fdf, kw, _ = base.relabel(df, variant)
+    model.fit(fdf, **kw)
     fit_error = None
   except Exception as e:  # pylint: disable=broad-except
     fit_error = '%s: %s' % (type(e).__name__, e)
